@@ -168,6 +168,38 @@ func (Prop) Gen(seed int64, tier string) *harness.Case {
 
 const nSpawn = 10
 
+// itemValue is what producer id sends as its i-th item (before any channel conversion).
+func itemValue(w *Work, id, i int64) interface{} {
+	str := fmt.Sprintf("p%d_%d", id, i)
+	num := id*100 + i
+	switch w.Elem {
+	case "string":
+		return str
+	case "interface":
+		if w.Nils && i%3 == 0 {
+			return nil
+		}
+		if i%2 == 0 {
+			return num
+		}
+		return str
+	}
+	return num * scaleOf(w)
+}
+
+// fwdValue is the transformation a forwarding stage applies.
+func fwdValue(v interface{}) interface{} {
+	switch x := v.(type) {
+	case int64:
+		return x + 1000
+	case float64:
+		return x + 1000
+	case string:
+		return x + "!"
+	}
+	return v
+}
+
 // switchConsumer: the final consumer is `switch <-ch { case a, b: ... }` in a counted loop (ConsForm 3).
 func (w *Work) switchConsumer() bool {
 	return w.ConsForm == 3 && w.Elem == "int64" && !w.Nils && w.Workers <= 1
@@ -206,19 +238,6 @@ func wantArgs(w *Work, p int) string {
 	return fmt.Sprint([]interface{}{id, n})
 }
 
-func itemExpr(elem string, nils bool) string {
-	switch elem {
-	case "string":
-		return `"p" + id + "_" + i`
-	case "interface":
-		if nils {
-			return `i % 3 == 0 ? nil : (i % 2 == 0 ? id * 100 + i : "p" + id + "_" + i)`
-		}
-		return `i % 2 == 0 ? id * 100 + i : "p" + id + "_" + i`
-	}
-	return "id * 100 + i"
-}
-
 func capExpr(n, style int) string {
 	switch style {
 	case 1:
@@ -232,13 +251,10 @@ func capExpr(n, style int) string {
 }
 
 func fwdExpr(elem, v string) string {
-	switch elem {
-	case "string":
-		return v + ` + "!"`
-	case "interface":
+	if elem == "interface" {
 		return v
 	}
-	return v + " + 1000"
+	return "fwd(" + v + ")" // host function: +1000 for numbers, + "!" for strings
 }
 
 // consumerLoop renders one of the three ways to drain a channel; v is the
@@ -294,10 +310,11 @@ func Render(w *Work) string {
 	if w.Sleep {
 		sl = "sleep(1)\n"
 	}
-	item := itemExpr(w.Elem, w.Nils)
-	if w.Scale != 0 && (w.Elem == "int64" || w.Elem == "float64") {
-		item = fmt.Sprintf("(%s) * (%d)", item, w.Scale)
-	}
+	// The item values are computed by a host function, not by script arithmetic: what `id * 100 + i` or
+	// string concatenation evaluate to is other properties' business and must not be able to trip this one.
+	// Conversion into the channel's element type stays with the interpreter (item() returns int64 for numeric
+	// channels, so a chan float64 still has to convert).
+	item := "item(id, i)"
 	send := "ch0 <- " + item
 	if w.AnonSend {
 		// one anonymous-call site evaluated by every producer goroutine
@@ -571,6 +588,8 @@ func (Prop) Run(t *testing.T, c *harness.Case, verbose bool) *harness.Result {
 			mu.Unlock()
 		})
 		e.Define("sleep", func(ms int64) { simrt.Sleep(time.Duration(ms) * time.Millisecond) })
+		e.Define("item", func(id, i int64) interface{} { return itemValue(&w, id, i) })
+		e.Define("fwd", fwdValue)
 		e.Define("args", func(xs ...interface{}) {
 			simrt.Yield("probe")
 			mu.Lock()
@@ -789,6 +808,8 @@ func RunReal(c *harness.Case) (string, string) {
 	e.Define("emit", func(v interface{}) { mu.Lock(); got = append(got, v); mu.Unlock() })
 	e.Define("probe", func(tag string, v interface{}) { mu.Lock(); probes[tag] = v; mu.Unlock() })
 	e.Define("sleep", func(ms int64) { time.Sleep(time.Duration(ms) * time.Microsecond) })
+	e.Define("item", func(id, i int64) interface{} { return itemValue(&w, id, i) })
+	e.Define("fwd", fwdValue)
 	e.Define("args", func(xs ...interface{}) {
 		mu.Lock()
 		if id, ok := xs[0].(int64); ok {
